@@ -16,7 +16,7 @@ RULE = ("extra-data trajectories of random shots (zeroed flat fire, arcing 5-40 
         "(shot, request); non-trivial when the target row is not the first/last row and at least one other row lies "
         "outside the target")
 MUST_OBSERVE = ["danger_spaces", "target_on_rising_branch", "target_on_falling_branch", "inclined_sight_line",
-                "bound_is_interior_row", "bound_is_end_row", "monotonic_pairs", "beyond_rejected", "plain_rejected"]
+                "bound_is_interior_row", "bound_is_end_row", "monotonic_pairs", "beyond_rejected", "plain_rejected", "explicit_look_angle_argument", "shot_reaimed_after_fire"]
 ASSUMPTIONS = ["'drop' is the row's drop relative to the sight line (target_drop), as in the reported DangerSpace rows"]
 DIST = si.DIMENSIONS["Distance"]
 
@@ -34,7 +34,11 @@ def idx_of(rows, row):
 
 def check_space(ctx, hit, case, q_ft, h_ft, h_unit):
     rows = hit.trajectory
-    ds = hit.danger_space(Distance.Foot(q_ft), Unit[h_unit](si.from_base("Distance", h_unit, h_ft * 0.3048)))
+    kw = {}
+    if case.get("look_arg_deg") is not None:
+        kw["look_angle"] = pb.Angular.Degree(case["look_arg_deg"])       # the optional third argument (an annotation for plots)
+        ctx.count("explicit_look_angle_argument")
+    ds = hit.danger_space(Distance.Foot(q_ft), Unit[h_unit](si.from_base("Distance", h_unit, h_ft * 0.3048)), **kw)
     ctx.count("danger_spaces")
     c = dict(case, at_range_ft=q_ft, height_ft=h_ft, height_unit=h_unit)
     req = Distance.Foot(q_ft).raw_value
@@ -97,6 +101,9 @@ def check_case(ctx, case):
     except pb.RangeError as err:
         hit = HitResult(shot, err.incomplete_trajectory, True)
     rows = hit.trajectory
+    if case.get("reaim_deg") is not None:
+        shot.look_angle = pb.Angular.Degree(case["reaim_deg"])       # the Shot object is re-used for the next target afterwards
+        ctx.count("shot_reaimed_after_fire")
     ds_ = [r.distance.raw_value for r in rows]
     if any(b < a for a, b in zip(ds_, ds_[1:])):
         # a lofted shot drifting back in a head wind: rows are no longer ordered by distance and 'the rows that bracket
@@ -163,7 +170,9 @@ def gen_case(rng):
         hs = sorted(rng.choice([rng.uniform(0.01, 0.5), rng.uniform(0.5, 6), rng.uniform(6, 60)]) for _ in range(3))
         queries.append([rng.choice([0.0, 1.0, rng.uniform(0.02, 0.5), rng.uniform(0.5, 0.98)]),
                         [[round(h, 4), rng.choice(DIST)] for h in hs]])
-    return {"shot": s, "zero_ft": zero_ft, "range_ft": range_ft, "step_ft": step, "queries": queries}
+    return {"shot": s, "zero_ft": zero_ft, "range_ft": range_ft, "step_ft": step, "queries": queries,
+            "look_arg_deg": rng.choice([None, None, 0.0, round(rng.uniform(-30, 30), 1)]),
+            "reaim_deg": rng.choice([None, None, None, round(rng.uniform(-20, 20), 1)])}
 
 
 def run(ctx):
